@@ -50,8 +50,8 @@ ASSUMPTIONS = [
     "models whose SDL the builder rejects (C11 findings) are exercised through the code route only",
 ]
 BOUNDS = {
-    "quick": {"features": 2, "generic_executor_upto": 1, "type_lookup_upto": 1, "disabled_upto": 1, "both_routes_upto": 2, "omitted_upto": 1},
-    "thorough": {"features": 3, "generic_executor_upto": 2, "type_lookup_upto": 2, "disabled_upto": 2, "both_routes_upto": 2, "omitted_upto": 2},
+    "quick": {"features": 2, "generic_executor_upto": 1, "type_lookup_upto": 1, "disabled_upto": 1, "both_routes_upto": 2, "omitted_upto": 1, "directive_change_upto": 1},
+    "thorough": {"features": 3, "generic_executor_upto": 2, "type_lookup_upto": 2, "disabled_upto": 2, "both_routes_upto": 2, "omitted_upto": 2, "directive_change_upto": 2},
 }
 TIME_CAP = {"quick": 150, "thorough": 1500}
 
@@ -373,6 +373,70 @@ def _lookup_one(schema, name, t, mode, st=None):
     return cls
 
 
+def check_after_directive_change(features, st=None):
+    """History: introspect, change the schema's DIRECTIVES in place through the public SchemaVisitor API (no type is
+    replaced), introspect again.  The second result must describe the changed schema (same oracle as the standard
+    query) and equal the introspection of a freshly built equivalent schema: nothing memoised by the first
+    introspection may survive the change."""
+    import copy
+
+    from py_gql import build_schema
+    from py_gql.schema import Directive, SchemaVisitor
+
+    out = []
+    sm0 = G.build_sm(features)
+    customs = [d["name"] for d in sm0["directives"]]
+    if not customs:
+        return out
+    target = customs[0]
+    for mode in ("remove", "rewrite"):
+        try:
+            schema = build_schema(M.sm_to_sdl(sm0))
+        except Exception:  # noqa (C11 territory)
+            return out
+        r1 = _run(schema, std_query(True))
+        if r1[0] != "ok" or r1[1].get("errors"):
+            return out  # reported by std-true
+        sm = copy.deepcopy(sm0)
+        if mode == "remove":
+            sm["directives"] = [d for d in sm["directives"] if d["name"] != target]
+            # (applications of the removed directive stay in the AST nodes only: introspection does not show them)
+
+            class V(SchemaVisitor):
+                def on_directive(self, d):
+                    return None if d.name == target else d
+
+        else:
+            for d in sm["directives"]:
+                if d["name"] == target:
+                    d["locations"] = ["QUERY", "ENUM"]
+                    d["description"] = "rewritten"
+                    d["args"] = []
+
+            class V(SchemaVisitor):
+                def on_directive(self, d):
+                    return Directive(d.name, ["QUERY", "ENUM"], args=[], description="rewritten") if d.name == target else d
+
+        try:
+            changed = V().on_schema(schema)
+        except Exception as e:  # noqa
+            out.append(("after-directive-change:visitor-raises:%s%s" % (type(e).__name__, exc_where(e)), "%s visitor: %s" % (mode, str(e)[:200])))
+            continue
+        if st is not None:
+            st.n("evaluations", 2)
+        v2, r2 = check_standard(changed, sm, True, False, None)
+        for cls, detail in v2:
+            out.append(("after-directive-change/%s:%s" % (mode, cls), detail))
+        fresh = build_schema(M.sm_to_sdl(sm))
+        r3 = _run(fresh, std_query(True))
+        if r2 is not None and r3[0] == "ok" and not v2:
+            a, b = (r2.get("data") or {}).get("__schema"), (r3[1].get("data") or {}).get("__schema")
+            if a != b:
+                what = [k for k in (a or {}) if (a or {}).get(k) != (b or {}).get(k)]
+                out.append(("after-directive-change/%s:differs-from-fresh-schema:%s" % (mode, "+".join(sorted(what))), "second introspection differs from the introspection of a freshly built equivalent schema in %s" % what))
+    return out
+
+
 def _mentions_schema(value):
     """any non-null content under a __schema / __type key"""
     if isinstance(value, dict):
@@ -436,7 +500,7 @@ def _has_code_facets(sm):
 
 
 def evaluate(features, route, part, st=None):
-    """part: "std-true" | "std-false" | "generic" | "lookup" | "disabled" -> [(class, detail)]"""
+    """part: "std-true" | "std-false" | "std-omitted" | "generic" | "lookup" | "disabled" | "directive-change" -> [(class, detail)]"""
     schema, model, note = make(features, route)
     if schema is None:
         if st is not None:
@@ -457,6 +521,8 @@ def evaluate(features, route, part, st=None):
         return check_type_lookup(schema, st)
     if part == "disabled":
         return check_disabled(schema, st)
+    if part == "directive-change":
+        return check_after_directive_change(features, st)
     raise ValueError(part)
 
 
@@ -478,6 +544,8 @@ def parts_for(features, route, bounds):
         parts.append("lookup")
     if len(features) <= bounds["disabled_upto"]:
         parts.append("disabled")
+    if route == "sdl" and sm["directives"] and len(features) <= bounds["directive_change_upto"]:
+        parts.append("directive-change")
     return parts
 
 
